@@ -170,7 +170,9 @@ def run_check(pid, tier, jobs=None, only_task=None):
 
     # determinism probe: the same recorded case observed twice must agree
     if hasattr(mod, 'probe'):
+        boot.uuid_counter.reset()
         a = json.dumps(mod.probe(), sort_keys=True, default=_json_default)
+        boot.uuid_counter.reset()
         b = json.dumps(mod.probe(), sort_keys=True, default=_json_default)
         if a != b:
             print(f'HARNESS-ERROR property={pid} nondeterministic probe')
